@@ -353,3 +353,27 @@ def composed(rng, t, kind, d):
         except Exception:
             continue
     return t, None
+
+
+def flip_an_edge(rng, s_pts, t_pts, tl):
+    """The same triangulated region with one interior edge replaced by the other diagonal of its (convex) quadrilateral -
+    a perfectly good mesh that is no longer the Delaunay triangulation of its points.  None when no edge can be flipped
+    while keeping the source -> target deformation fold-free."""
+    tl = np.asarray(tl)
+    edges = {}
+    for ti, (a, b, c) in enumerate(tl.tolist()):
+        for u, v, o in ((a, b, c), (b, c, a), (c, a, b)):
+            edges.setdefault(tuple(sorted((u, v))), []).append((ti, o))
+    inner = [(e, x) for e, x in edges.items() if len(x) == 2]
+    rng.shuffle(inner)
+    for (u, v), ((t1, o1), (t2, o2)) in inner:
+        new = np.array([[o1, u, o2], [o1, o2, v]], dtype=tl.dtype)
+        a_s, a_t = gen.tri_area2(s_pts, new), gen.tri_area2(np.asarray(t_pts, dtype=float), new)
+        if np.sign(a_s[0]) != np.sign(a_s[1]) or np.abs(a_s).min() < 4.0:
+            continue          # not a convex quadrilateral (or a sliver)
+        if (np.sign(a_s) != np.sign(a_t)).any() or np.abs(a_t).min() < 2.0:
+            continue
+        out = tl.copy()
+        out[t1], out[t2] = new[0], new[1]
+        return out
+    return None
